@@ -341,6 +341,100 @@ def free_stage(d, run, what, combos, est=False, kinds=None, pclear=None):
         run.notes.setdefault("free_running", []).append({"flavor": flavor, "executor": ex, "instances": n, "snapshots": info.get("lines"), "stuck": info.get("stuck")})
 
 
+def _lock_programs(trace_files, out_path):
+    """the lock-relevant skeleton of every recorded step, in the roles of Locks.tla; distinct programs only"""
+    progs = {}
+    for tf in trace_files:
+        for line in open(tf):
+            if '"locks"' not in line:
+                continue
+            ev = json.loads(line)
+            per_thread = {}
+            for e in ev.get("locks", []):
+                per_thread.setdefault(e["t"], []).append(e)
+            for t, es in per_thread.items():
+                held = []   # (id, class, role)
+                ops = []
+                for e in es:
+                    if e["k"] == "want":
+                        if any(h[0] == e["id"] for h in held):
+                            role = "same"
+                        elif e["c"] == "shard":
+                            role = "s2" if any(h[1] == "shard" for h in held) else "s1"
+                        else:
+                            role = {"policy": "pol"}.get(e["c"], e["c"])
+                        held.append((e["id"], e["c"], role))
+                        ops.append(["acq", role, e["m"]])
+                    else:
+                        for j in range(len(held) - 1, -1, -1):
+                            if held[j][0] == e["id"]:
+                                ops.append(["rel", held[j][2]])
+                                del held[j]
+                                break
+                # a loop over all shards (clear, len) is one acquisition repeated: collapse consecutive repeats of a pair
+                out = []
+                for o in ops:
+                    if len(out) >= 3 and o[0] == "rel" and out[-1][0] == "acq" and out[-2] == o and out[-3] == out[-1]:
+                        out.pop()
+                        continue
+                    out.append(o)
+                if out:
+                    progs.setdefault(json.dumps(out), ev.get("ev"))
+    with open(out_path, "w") as f:
+        for p, src in sorted(progs.items()):
+            f.write(json.dumps({"ops": json.loads(p), "from": src}) + "\n")
+    return len(progs)
+
+
+def lock_stage(d, run, combos, catalogue=False):
+    """LOCK LEVEL (Locks.tla): every acquisition recorded by the traced locks obeys the discipline (Locks_Trace); the
+    critical sections observed in the real code, composed by TLC under every interleaving with parking_lot's fair
+    read-write semantics, never deadlock (MC_Locks_observed); the transcribed catalogue does not either (MC_Locks);
+    the pre-fix get_ttl does (MC_Locks_witness: the check bites)."""
+    wd = run.workdir
+    files = []
+    for (prof, flavor, nq, nt) in combos:
+        n = nt if _thorough(run) else nq
+        trace = os.path.join(wd, "locks-%s-%s.ndjson" % (prof, flavor))
+        info = d.vh(["cache", "--profile", prof, "--flavor", flavor, "--n", n, "--seed", run.seed, "--locks", "--out", trace], timeout=1800)
+        r = d.validate_trace("Locks_Trace.tla", "Locks_Trace.cfg", trace, wd)
+        if r["status"] == "accepted":
+            run.transitions += r["states"]
+        elif r["status"] in ("rejected", "invariant"):
+            lines = open(trace).read().splitlines(True)
+            # Locks_Trace evaluates line l in the state that has not consumed it yet: state number = line number
+            bad = min(r.get("line", 1) + (1 if r["status"] == "invariant" else 0), len(lines))
+            st = max([i for i in range(bad) if '"ev":"Init"' in lines[i]] or [0])
+            keep = lines[st:bad]
+            run.violation("lock discipline of Locks.tla broken by the real code [profile %s, %s]: %s %s at recorded event %s" % (
+                prof, flavor, r["status"], r.get("detail"), keep[-1][:400] if keep else ""), replay_lines=keep)
+        else:
+            d.log(str(r.get("detail"))[-1500:])
+            raise d.ToolError("lock trace validation error")
+        files.append(trace)
+        run.traces += n
+        run.evaluations += info.get("lines", 0)
+    progs = os.path.join(wd, "lock-programs.ndjson")
+    np = _lock_programs(files, progs)
+    if np == 0:
+        raise d.ToolError("vacuous run: no lock program recorded")
+    if catalogue or _thorough(run):
+        cat = d.tlc_mc("MC_Locks.tla", "MC_Locks.cfg", wd, workers=8, timeout=1800)
+        run.add_mc(cat, "MC_Locks (catalogue of critical sections transcribed from the code, 3 threads, fair read-write locks: no deadlock, discipline)")
+        if cat["violated"]:
+            run.violation("Locks.tla: the catalogue violates %s" % cat["violated"], replay_lines=[cat["out"][-6000:]])
+    obs = d.tlc_mc("MC_Locks.tla", "MC_Locks_observed.cfg", wd, workers=8, timeout=1800, env={"PROGRAMS": progs})
+    run.add_mc(obs, "MC_Locks_observed (%d distinct critical-section programs recorded from the real code, composed under every interleaving: no deadlock, discipline)" % np)
+    if obs["violated"]:
+        run.violation("the critical sections recorded from the real code can deadlock / break the lock discipline: %s" % obs["violated"],
+                      replay_lines=[open(progs).read(), obs["out"][-6000:]])
+    w = d.tlc_mc("MC_Locks.tla", "MC_Locks_witness.cfg", wd, workers=2, timeout=600)
+    if "<deadlock>" not in w["violated"]:
+        raise d.ToolError("MC_Locks_witness: the expected deadlock (second read lock behind a waiting writer) was not found")
+    run.notes["lock_programs"] = np
+    run.notes["lock_witness"] = "MC_Locks_witness.cfg deadlocks, as expected (get_ttl before fix D10)"
+
+
 def _need(d, hist, names):
     # vacuity guard -- only meaningful when nothing was found (a deviation can make a branch unreachable)
     if getattr(d, "_current_run", None) is not None and d._current_run.violations:
@@ -444,6 +538,7 @@ def c10(d, run):
                     ["chan", "out", "store", "costs"], ["NoOrphan", "Agree"], nontrivial=("WaitSend", "WaitBlock", "WaitRet", "PWait", "PCleanItem", "PStop"))
     sim_stage(d, run, "real cache deviates from Cache.tla (wait barrier / termination)", ["chan", "out", "store", "costs"],
               ["NoOrphan", "Agree"], 40, 400)
+    lock_stage(d, run, LOCK_LIFE)
     if _thorough(run):
         exh_stage(d, run, "real cache deviates from Cache.tla (wait barrier / termination)", "exh_life", ["chan", "out", "store", "costs"],
                   ["NoOrphan", "Agree"], flavors=("sync", "async"))
@@ -461,6 +556,7 @@ def c10(d, run):
 def c12(d, run):
     _liveness(d, run)
     _drain_liveness(d, run)
+    lock_stage(d, run, LOCK_LIFE)
     h = cache_stage(d, run, "real cache deviates from Cache.tla (close protocol)",
                     ["life"],
                     [("life", "sync", 50, 400), ("life", "async", 20, 150)],
@@ -527,6 +623,10 @@ def c03(d, run):
                     ["ttl"],
                     [("ttl", "sync", 30, 300), ("ttl_fine", "sync", 20, 150), ("ttl_conc", "sync", 25, 200), ("ttl", "async", 10, 80)],
                     ["store", "out", "em", "vttl"], ["IndexExact", "ResidentOwned"], nontrivial=("Get", "GetMut", "GetTtl"))
+    # get_ttl (and every other lookup) returns: lock level, and parallel readers / writers of one key for real
+    lock_stage(d, run, LOCK_TTL)
+    free_stage(d, run, "parallel get / get_ttl / writers of one key do not all return (free-running threads)",
+               [("sync", "thread", 2, 12), ("async", "thread", 2, 12)], kinds="par")
     _need(d, h, ["Get", "GetTtl", "GetMut", "Advance", "PCleanupKey"])
     run.nontrivial = len(getattr(run, "_distinct", ()))
     run.rule = ("virtual clock in milliseconds; non-trivial = get / get_mut / get_ttl calls, whose visibility and remaining ttl are "
@@ -547,6 +647,11 @@ def c04(d, run):
                 "inserts and lookups; TLC evaluates NoLoss (nothing refused, evicted or lost; resident set = demanded set) on every "
                 "quiescent recorded state and compares every lookup with the specification")
     run.assumptions = BASE_ASSUME
+
+
+LOCK_TTL = [("ttl", "sync", 6, 40), ("ttl_conc", "sync", 4, 30), ("ttl", "async", 4, 20)]
+LOCK_LIFE = [("life", "sync", 6, 40), ("conc_clear", "sync", 6, 40), ("life", "async", 4, 20)]
+LOCK_CFG = [("cfg", "sync", 10, 70), ("evict", "async", 4, 30), ("cond", "sync", 4, 30), ("ring", "sync", 3, 20), ("ttl", "sync", 4, 20)]
 
 
 def c05(d, run):
@@ -764,6 +869,7 @@ def c19(d, run):
 
 def c20(d, run):
     _drain_liveness(d, run)
+    lock_stage(d, run, LOCK_CFG, catalogue=True)
     mc = d.tlc_mc("MC_Config.tla", "MC_Config.cfg", run.workdir, workers=2)
     run.add_mc(mc, "MC_Config (num_counters 0..70 x max_cost {-5,0,1,2,100} x buffer {0,1,2}: validation rule and well-formed dimensions)")
     if mc["violated"]:
